@@ -7,7 +7,13 @@ after the cell.  A native stack overflow or abort kills that process and is
 seen as `crash rc=-6/-11`; a Rust panic is reported by pworker's catch_unwind.
 
   shapes      list [1..N]; f(f(...a...)) right-deep; ((a+1)+1)+... left-deep;
-              [[[...[]...]]]; g/255 with 254 atoms and one nested g/255 (N cells)
+              [[[...[]...]]]; g/255 with 254 atoms and one nested g/255 (N cells);
+              shared-cell shapes: a list of N references to ONE f(a,b) cell, a list
+              alternating two equal f(a,b) cells, a list of N references to one
+              [p,q,r], a chain g(X,g(X,...)) sharing X -- under ==, \\==, compare/3,
+              @<, T == T, unification with a twin built the same way, copy_term +
+              ==, sort/2 (-> 1 element) and keysort/2 with the shared term as key
+              (stable: values stay 1..N)
   sizes       10^4, 10^5 (quick); 10^3, 10^4, 10^5, 10^6 (thorough)
   operations  build, copy_term, ==, compare, unify with a twin that has a
               variable leaf, subsumes_term, ground, term_variables,
@@ -51,6 +57,10 @@ SHAPES = ["list", "rdeep", "ldeep", "nest", "wide"]
 OPS = ["build", "copy", "eq", "compare", "unify", "subsumes", "ground", "tvars", "acyclic", "findall", "assert", "bb",
        "throw", "write", "read", "formatq", "wcanon", "pclause", "fread", "consult", "univ"]
 LIST_OPS = ["length", "sort", "append"]
+# shapes in which ONE compound cell is referenced N times, under the operations that compare or order
+SH_SHAPES = ["shlist", "shlist2", "shlist3", "shchain"]
+SH_OPS = ["eq", "neq", "compare", "lt", "eqself", "unify2", "copyeq", "build"]
+SH_LIST_OPS = ["sort", "keysort"]
 LEAF = {"list": "[]", "rdeep": "a", "ldeep": "a", "nest": "[]", "wide": "z"}
 
 
@@ -59,8 +69,9 @@ def sizes(tier):
 
 
 def bound_text(tier):
-    return "%d cells: 5 shapes x sizes %s x %d operations (+3 list operations); stack limit %s KB" % (
-        len(cells(tier)), sizes(tier), len(OPS), STACK_KB)
+    return ("%d cells: 5 shapes x sizes %s x %d operations (+3 list operations), 4 shared-cell shapes x %d comparing/"
+            "ordering operations; stack limit %s KB" % (len(cells(tier)), sizes(tier), len(OPS),
+                                                        len(SH_OPS) + len(SH_LIST_OPS), STACK_KB))
 
 
 def cells(tier):
@@ -68,6 +79,9 @@ def cells(tier):
     for n in sizes(tier):
         for sh in SHAPES:
             for op in OPS + (LIST_OPS if sh == "list" else []):
+                out.append((sh, n, op))
+        for sh in SH_SHAPES:
+            for op in SH_OPS + (SH_LIST_OPS if sh != "shchain" else []):
                 out.append((sh, n, op))
     return out
 
@@ -101,6 +115,9 @@ def text_len(sh, n):
 
 
 def expected(sh, n, op):
+    if sh in SH_SHAPES:
+        return {"eq": "true", "neq": "false", "compare": "=", "lt": "false", "eqself": "true", "unify2": "true",
+                "copyeq": "true", "build": n, "sort": 1, "keysort": ("k", n, 1, n)}[op]
     eff = (n // 255) * 255 if sh == "wide" else n
     if op in ("build", "copy", "findall", "assert", "bb", "throw", "read", "fread", "consult", "length", "sort"):
         return eff
